@@ -111,6 +111,10 @@ Definition op_ok (o : op) (L : local) : Prop :=
   | OAlloc k _ e => is_alloc_entry e = true /\ slot_get k (l_slots L) = None
   | OFree _ e => is_release_entry e = true
   | OWild e => is_wild_entry e = true
+  | ORefused k _ => match slot_get k (l_slots L) with
+                    | None => True
+                    | Some si => s_fam si = FMalloc /\ s_bad si = false
+                    end
   | _ => True
   end.
 
@@ -205,6 +209,75 @@ Proof.
   exists x. unfold info, sinfo in H. inversion H. auto.
 Qed.
 
+Lemma agree_same_find : forall t L tb tb', agree t L tb -> (forall k, tbl_find t k tb' = tbl_find t k tb) -> agree t L tb'.
+Proof. intros t L tb tb' H E k. rewrite E. apply H. Qed.
+
+Lemma NoDup_map_inj : forall A B (f : A -> B) l x y, NoDup (map f l) -> In x l -> In y l -> f x = f y -> x = y.
+Proof.
+  induction l as [|a l IH]; simpl; intros x y Hnd Hx Hy E; [tauto|]. inversion Hnd; subst.
+  destruct Hx as [->|Hx], Hy as [->|Hy]; auto.
+  - exfalso. apply H1. rewrite E. apply in_map; auto.
+  - exfalso. apply H1. rewrite <- E. apply in_map; auto.
+Qed.
+
+Lemma tbl_find_some : forall t k tb x, tbl_find t k tb = Some x -> In x tb /\ tkey x = (t, k).
+Proof. intros t k tb x H. unfold tbl_find in H. apply find_some in H. destruct H as (H1 & H2). split; auto. apply key_is_spec; auto. Qed.
+
+Lemma tbl_remove_In_rev : forall t k x tb, In x tb -> tkey x <> (t, k) -> In x (tbl_remove t k tb).
+Proof.
+  unfold tbl_remove. intros t k x tb Hx Hne. apply filter_In. split; auto.
+  destruct (key_is t k x) eqn:E; auto. apply key_is_spec in E. congruence.
+Qed.
+
+(* taking a record out and putting the same record back: the table holds the same records, every lookup gives what it gave *)
+Lemma readd_same : forall t k tb x, NoDup (map tkey tb) -> NoDup (map t_seq tb) -> tbl_find t k tb = Some x ->
+  (forall y, In y (x :: tbl_remove t k tb) <-> In y tb)
+  /\ (forall u k', tbl_find u k' (x :: tbl_remove t k tb) = tbl_find u k' tb)
+  /\ NoDup (map tkey (x :: tbl_remove t k tb)) /\ NoDup (map t_seq (x :: tbl_remove t k tb)).
+Proof.
+  intros t k tb x Hk Hs Hf. destruct (tbl_find_some _ _ _ _ Hf) as (Hx & Hkey).
+  split; [|split; [|split]].
+  - intros y. simpl. split.
+    + intros [<-|Hy]; auto. apply tbl_remove_In in Hy. tauto.
+    + intros Hy. destruct (key_is t k y) eqn:E.
+      * left. apply key_is_spec in E. apply (NoDup_map_inj _ _ tkey tb x y Hk Hx Hy). congruence.
+      * right. apply tbl_remove_In_rev; auto. intros E2. apply key_is_spec in E2. congruence.
+  - intros u k'. simpl. destruct (key_is u k' x) eqn:E.
+    + apply key_is_spec in E. rewrite Hkey in E. inversion E; subst. auto.
+    + apply tbl_find_remove_other. intros E2. inversion E2; subst. apply key_is_spec in Hkey. congruence.
+  - simpl. constructor; [|apply tbl_remove_keys; auto].
+    rewrite Hkey. apply tbl_find_None_notin. apply tbl_find_remove_same.
+  - simpl. constructor; [|apply tbl_remove_seqs; auto].
+    intros Hin. apply in_map_iff in Hin. destruct Hin as (y & E & Hy). apply tbl_remove_In in Hy. destruct Hy as (Hy & Hne).
+    apply Hne. rewrite <- Hkey. f_equal. apply (NoDup_map_inj _ _ t_seq tb y x Hs Hy Hx). auto.
+Qed.
+
+(* a realloc that is turned down: no report, the table holds the same records with the same numbers, the counter stands *)
+Lemma detector_refused : forall n t k rf L snap sh' failed,
+  op_ok (ORefused k rf) L -> TblInv n snap -> agree t L (sh_table snap) ->
+  detector c t (ORefused k rf) L snap = (sh', failed) ->
+  failed = false
+  /\ (forall x, In x (sh_table sh') <-> In x (sh_table snap))
+  /\ sh_seq sh' = sh_seq snap
+  /\ (forall u k', tbl_find u k' (sh_table sh') = tbl_find u k' (sh_table snap))
+  /\ NoDup (map tkey (sh_table sh')) /\ NoDup (map t_seq (sh_table sh')).
+Proof.
+  intros n t k rf L snap sh' failed Hok I Ha Hd. simpl in Hd, Hok.
+  destruct (Hw ERealloc) as (_ & Hact). rewrite Hact in Hd. simpl in Hd.
+  assert (Hsame : (snap, false) = (sh', failed) -> failed = false
+                  /\ (forall x, In x (sh_table sh') <-> In x (sh_table snap)) /\ sh_seq sh' = sh_seq snap
+                  /\ (forall u k', tbl_find u k' (sh_table sh') = tbl_find u k' (sh_table snap))
+                  /\ NoDup (map tkey (sh_table sh')) /\ NoDup (map t_seq (sh_table sh'))).
+  { intros E. inversion E; subst. destruct I. repeat split; auto. }
+  destruct rf; auto.
+  destruct (slot_get k (l_slots L)) as [si|] eqn:Hs; auto.
+  destruct Hok as (Hfm & Hbad).
+  destruct (agree_some _ _ _ _ _ Ha Hs) as (x & Hx & Hsz & Hfam). rewrite Hx in Hd.
+  rewrite Hfam, Hfm, Hbad in Hd. simpl in Hd. inversion Hd; subst; clear Hd. simpl.
+  destruct I as [Ho Hk Hsq Hss Hp].
+  destruct (readd_same _ _ _ _ Hk Hss Hx) as (H1 & H2 & H3 & H4). repeat split; auto; apply H1.
+Qed.
+
 (* the detector's part of an operation: verdict as the textbook says, own view updated as the textbook says, the other
    threads' views untouched, table well-formed, one sequence number consumed per allocation *)
 Lemma detector_ok : forall n t o L snap sh' failed e,
@@ -217,7 +290,7 @@ Lemma detector_ok : forall n t o L snap sh' failed e,
   /\ (sh_seq sh' + l_allocs L = sh_seq snap + l_allocs (fst (lstep o L)))%N.
 Proof.
   intros n t o L snap sh' failed e He Hok Ht I Ha Hd.
-  destruct o as [k sz e0|k e0|k sz|k|e0|]; simpl in He; try discriminate; simpl in Hd, Hok |- *.
+  destruct o as [k sz e0|k e0|k sz|k|e0| |k rf]; simpl in He; try discriminate; simpl in Hd, Hok |- *.
   - (* alloc *)
     destruct Hok as (Hae & Hnone). destruct (Hw e0) as (_ & Hact). rewrite Hact in Hd.
     assert (Ef : textbook_action e0 = AAlloc (entry_fam e0)) by (destruct e0; simpl in *; auto; discriminate).
@@ -256,6 +329,15 @@ Proof.
   - (* wild *)
     destruct (Hw e0) as (_ & Hact). rewrite Hact in Hd.
     destruct e0; simpl in Hok; try discriminate; simpl in Hd; inversion Hd; subst; (split; [auto|split; [auto|split; [auto|split; [auto|auto]]]]).
+  - (* realloc turned down *)
+    destruct (detector_refused n t k rf L snap sh' failed Hok I Ha Hd) as (-> & Hin & Hsq & Hfind & Hkeys & Hseqs).
+    split; [auto|]. split; [exact (agree_same_find _ _ _ _ Ha (fun k' => Hfind t k'))|].
+    split; [intros u Lu _ Hu; exact (agree_same_find _ _ _ _ Hu (fun k' => Hfind u k'))|].
+    split; [|lia].
+    destruct I as [Ho Hk Hs Hss Hp]. constructor; auto.
+    + intros x Hx. apply Ho. apply Hin; auto.
+    + intros x Hx. rewrite Hsq. apply Hs. apply Hin; auto.
+    + rewrite Hsq. auto.
 Qed.
 
 End Detector.
